@@ -37,7 +37,7 @@ def _save_real():
     _real['use_fd'] = shutil._use_fd_functions
 
 
-MUTATING = frozenset(['mkdir', 'open-w', 'write', 'close-w', 'unlink',
+MUTATING = frozenset(['mkdir', 'open-w', 'truncated', 'write', 'close-w', 'unlink',
                       'rmdir', 'rename', 'sql-dml', 'sql-commit', 'sql-script'])
 
 
@@ -207,6 +207,10 @@ class SimFS(object):
         raw = _SimFileIO(self, file, rawmode)
         if not existed:
             self.stamp_dir(self._parent(file))
+        elif 'w' in mode:
+            # an EXISTING file was just emptied by the open: a point of its own (a reader or a crash right here
+            # finds the file empty), reported after the fact
+            self.event('truncated', file)
         buffering = kwds.get('buffering', args[0] if args else -1)
         if buffering == 0:
             return raw
@@ -340,6 +344,7 @@ class SimFS(object):
         os.stat, os.lstat = self._stat, self._lstat
         _ka.open = self._open
         _kp.open = self._open
+        shutil.open = self._open          # shutil.copyfile & co. open files through the module-global name
         time.sleep = self._sleep
         time.time = self._time
         tempfile.mktemp = self._mktemp
@@ -355,7 +360,7 @@ class SimFS(object):
         for name in ('mkdir', 'rmdir', 'unlink', 'remove', 'rename', 'replace',
                      'listdir', 'scandir', 'stat', 'lstat'):
             setattr(os, name, _real[name])
-        for mod in (_ka, _kp):
+        for mod in (_ka, _kp, shutil):
             if 'open' in mod.__dict__:
                 del mod.__dict__['open']
         time.sleep = _real['sleep']
